@@ -61,4 +61,13 @@ PROPS = {
         technique="Coq: finite nil matrix computed from conversion tables regenerated from source (vm_compute, lifted), helper-coverage table condition; exhaustive nil x helper x position matrix on the real code with recover",
         trusted=["Go semantics of value-receiver methods called through nil pointers (modelled as Panic outcomes)"],
     ),
+    "C02": dict(
+        props="Props/C02.v", module="Props.C02", harness="C02",
+        n_quick=200, n_thorough=6000,
+        model_files=["Model/JsonEnc.v", "Model/JsonLeaf.v", "Model/Json.v", "Model/JsonCheck.v", "Gen/JsonW.v"],
+        technique="Coq: table conditions over write tables regenerated from source (terms, kinds, no duplicate member) + escaper closedness theorems for all byte strings; byte-for-byte in-Coq correspondence of the encoder model; encoding/json as native validity oracle",
+        go_funcs=["MarshalJSON of every type", "JSONWrite*"],
+        design_ref="7/C02",
+        trusted=["encoding/json as the independent JSON validity oracle of the native evaluation"],
+    ),
 }
